@@ -162,9 +162,11 @@ theorem stepOp_inv (sb db : Buf) (hs : sb.valid) (hd : db.valid) (op : Nat) (r :
   · dsimp only
     split
     · refine ⟨?_, ?_⟩
+      · dsimp only; exact exec_RInv sb _ _ (exec_RInv sb _ _ (exec_RInv sb _ _ h.src))
+      · dsimp only; exact h.dst
+    · refine ⟨?_, ?_⟩
       · dsimp only; exact exec_RInv sb _ _ (exec_RInv sb _ _ h.src)
       · dsimp only; exact h.dst
-    · exact srcExec_inv sb db r _ h
   · dsimp only
     exact dstExec_inv sb db _ _ (copyFromReader_inv sb db 8 _ (dstExec_inv sb db r _ h))
   · exact copyFromReader_inv sb db 3 r h
